@@ -411,7 +411,17 @@ func (c *Client) sendWithWriter(writer io.Writer, packet []byte) error {
 
 // Loop: Receive data from server
 func (c *Client) recv(keepaliveQuit chan<- struct{}) {
-	defer close(keepaliveQuit)
+	// The keepalive belongs to this session. It is stopped before the end of the session is reported: the handler of
+	// that event typically re-establishes the session on the same transport, where a keepalive left running would ping
+	// (and on failure close) whatever connection the transport holds by then.
+	keepaliveStopped := false
+	stopKeepalive := func() {
+		if !keepaliveStopped {
+			keepaliveStopped = true
+			close(keepaliveQuit)
+		}
+	}
+	defer stopKeepalive()
 	if verifEnabled {
 		defer vpoint("recv.exit")
 	}
@@ -426,6 +436,7 @@ func (c *Client) recv(keepaliveQuit chan<- struct{}) {
 		}
 		if err != nil {
 			c.ErrorHandler(err)
+			stopKeepalive()
 			c.disconnected(c.Session.SMState)
 			return
 		}
@@ -447,6 +458,7 @@ func (c *Client) recv(keepaliveQuit chan<- struct{}) {
 			err = c.Send(answer)
 			if err != nil {
 				c.ErrorHandler(err)
+				stopKeepalive()
 				c.disconnected(c.Session.SMState)
 				return
 			}
@@ -454,6 +466,7 @@ func (c *Client) recv(keepaliveQuit chan<- struct{}) {
 			// TCP messages should arrive in order, so we can expect to get nothing more after this occurs
 			c.transport.ReceivedStreamClose()
 			// The stream is over, whoever ended it: report it like any other end of the connection
+			stopKeepalive()
 			c.disconnected(c.Session.SMState)
 			return
 		case stanza.Message, stanza.Presence, *stanza.IQ:
